@@ -100,3 +100,7 @@ func (b *NonRevocationProofBuilder) VerifState() (randomizer *big.Int, index uin
 func (ic *Credential) VerifNonrevConsumeBuilder() (*NonRevocationProofBuilder, error) {
 	return ic.nonrevConsumeBuilder()
 }
+
+func VerifSumFourSquaresSpecial(n *big.Int) (*big.Int, *big.Int, *big.Int, *big.Int) {
+	return common.VerifSumFourSquaresSpecial(n)
+}
